@@ -145,13 +145,82 @@ Lemma chmod_inv m0 t md w :
   (failed (chmod pl t md w) = true -> pl (wcnt w) = true).
 Proof.
   intros Hinv. unfold chmod, call. destruct (pl (wcnt w)) eqn:Hp; cbn.
-  - repeat split; try exact Hinv. apply Hinv. apply Hinv.
+  - split; [exact Hinv|]. split; reflexivity.
   - destruct Hinv as (Hn & Hd & [f Hs]). rewrite Hs. cbn.
-    repeat split; try discriminate.
-    + exact Hn.
+    split; [|split; [reflexivity|discriminate]].
+    split; [exact Hn|]. split.
     + rewrite delete_insert_delete. exact Hd.
     + rewrite lookup_insert. eauto.
 Qed.
+
+(* ---------- case lemmas: what one call can return, and what it leaves ---------- *)
+Lemma open_rd_cases p w :
+  (exists e w', open_rd pl p w = Fail e w' /\ wfs w' = wfs w /\ wcnt w' = S (wcnt w)) \/
+  (exists w', open_rd pl p w = Done tt w' /\ wfs w' = wfs w /\ wcnt w' = S (wcnt w)).
+Proof.
+  unfold open_rd, call. destruct (pl (wcnt w)); [left; eexists _, _; repeat split|].
+  destruct (wfs w !! p); [right; eexists; repeat split|left; eexists _, _; repeat split].
+Qed.
+
+Lemma stat_cases p w :
+  (exists e w', stat pl p w = Fail e w' /\ wfs w' = wfs w /\ wcnt w' = S (wcnt w)) \/
+  (exists fi w', stat pl p w = Done fi w' /\ wfs w' = wfs w /\ wcnt w' = S (wcnt w) /\
+                 wfs w !! p = Some fi /\ pl (wcnt w) = false).
+Proof.
+  unfold stat, call. destruct (pl (wcnt w)); [left; eexists _, _; repeat split|].
+  destruct (wfs w !! p) as [fi|]; [right; exists fi; eexists; repeat split|left; eexists _, _; repeat split].
+Qed.
+
+Lemma create_temp_cases md w :
+  (exists e w', create_temp pl fresh md w = Fail e w' /\ wfs w' = wfs w /\ wcnt w' = S (wcnt w)) \/
+  (exists w', create_temp pl fresh md w = Done (fresh (wfs w)) w' /\
+              wfs w' = <[fresh (wfs w) := File [] md]> (wfs w) /\ wcnt w' = S (wcnt w) /\
+              staged_inv (wfs w) (fresh (wfs w)) (wfs w')).
+Proof.
+  unfold create_temp, call. destruct (pl (wcnt w)); [left; eexists _, _; repeat split|].
+  right. eexists. split; [reflexivity|]. cbn [wfs wcnt]. split; [reflexivity|]. split; [reflexivity|].
+  apply staged_inv_insert. apply fresh_spec.
+Qed.
+
+Lemma open_excl_cases o w :
+  (exists e w', open_excl pl o w = Fail e w' /\ wfs w' = wfs w /\ wcnt w' = S (wcnt w)) \/
+  (exists w', open_excl pl o w = Done tt w' /\ wcnt w' = S (wcnt w) /\
+              staged_inv (wfs w) o (wfs w')).
+Proof.
+  unfold open_excl, call. destruct (pl (wcnt w)); [left; eexists _, _; repeat split|].
+  destruct (wfs w !! o) as [f|] eqn:Ho; [left; eexists _, _; repeat split|].
+  right. eexists. split; [reflexivity|]. cbn [wfs wcnt]. split; [reflexivity|].
+  apply staged_inv_insert. exact Ho.
+Qed.
+
+(* on the staging file chmod can only fail through an injected fault *)
+Lemma chmod_cases m0 t md w :
+  staged_inv m0 t (wfs w) ->
+  (exists w', chmod pl t md w = Fail EIO w' /\ wfs w' = wfs w /\ wcnt w' = S (wcnt w) /\ pl (wcnt w) = true) \/
+  (exists w', chmod pl t md w = Done tt w' /\ staged_inv m0 t (wfs w') /\ wcnt w' = S (wcnt w)).
+Proof.
+  intros Hinv. unfold chmod, call. destruct (pl (wcnt w)) eqn:Hp.
+  - left. eexists. repeat split.
+  - right. pose proof Hinv as (Hn & Hd & [f Hs]). rewrite Hs. eexists. split; [reflexivity|].
+    cbn [wfs wcnt]. split; [|reflexivity]. apply staged_inv_update. exact Hinv.
+Qed.
+
+(* renaming the staging file away can only fail through an injected fault *)
+Lemma rename_cases m0 t d w :
+  staged_inv m0 t (wfs w) ->
+  (exists w', rename pl t d w = Fail EIO w' /\ wfs w' = wfs w /\ wcnt w' = S (wcnt w) /\ pl (wcnt w) = true) \/
+  (exists f w', rename pl t d w = Done tt w' /\ wfs w !! t = Some f /\
+                wfs w' = <[d := f]> (delete t (wfs w)) /\ wcnt w' = S (wcnt w)).
+Proof.
+  intros Hinv. unfold rename, call. destruct (pl (wcnt w)) eqn:Hp.
+  - left. eexists. repeat split.
+  - right. pose proof Hinv as (Hn & Hd & [f Hs]). rewrite Hs. exists f. eexists. repeat split.
+Qed.
+
+(* close the output, then remove the staging file, with no fault left: the original filesystem *)
+Lemma remove_quiet_restores m0 t w :
+  quiet pl (wcnt w) -> staged_inv m0 t (wfs w) -> wfs (world_of (remove pl t w)) = m0.
+Proof. intros Hq Hinv. apply (remove_restores m0 t w); [apply quiet_here; exact Hq|exact Hinv]. Qed.
 
 (* ---------- the operation body ---------- *)
 Lemma body_spec m0 t chunks fin : forall w,
@@ -164,7 +233,7 @@ Lemma body_spec m0 t chunks fin : forall w,
 Proof.
   induction chunks as [|c cs IH]; intros w Hinv; cbn [body].
   - cbn. split; [exact Hinv|]. split; [lia|left; reflexivity].
-  - unfold write at 1 3 5 7, call. destruct (pl (wcnt w)) eqn:Hp.
+  - unfold write, call. destruct (pl (wcnt w)) eqn:Hp.
     + cbn. split; [exact Hinv|]. split; [lia|]. right. split; [reflexivity|].
       exists (wcnt w). split; [lia|exact Hp].
     + pose proof Hinv as (Hn & Hd & [f Hs]). rewrite Hs. cbn [fst snd].
@@ -186,7 +255,7 @@ Proof.
   induction chunks as [|c cs IH]; intros w f Hq Hs; cbn [body].
   - cbn. rewrite app_nil_r. split; [reflexivity|]. split; [|lia].
     destruct f as [d md]. cbn. rewrite insert_id; [reflexivity|exact Hs].
-  - unfold write at 1 3 5, call. rewrite (quiet_here _ _ Hq), Hs. cbn [fst snd].
+  - unfold write, call. rewrite (quiet_here _ _ Hq), Hs. cbn [fst snd].
     set (w1 := W _ _ _).
     specialize (IH w1 (File (fdata f ++ c) (fmode f))).
     destruct IH as (I1 & I2 & I3).
